@@ -56,7 +56,7 @@ const vTCPBase = 1 << 20
 func vAddr(net0 int, k int) *net.UDPAddr {
 	k %= vTCPBase
 	ip := k / 16
-	port := 5000 + k%16
+	port := vSlotPort(k % 16)
 	if net0&1 == 1 {
 		return &net.UDPAddr{IP: net.ParseIP(fmt.Sprintf("fd00::%x", ip+1)), Port: port}
 	}
@@ -73,7 +73,28 @@ func vAddrID(ap netip.AddrPort) int {
 		b := a.As16()
 		ip = int(b[14])<<8 + int(b[15]) - 1
 	}
-	return ip*16 + int(ap.Port()) - 5000
+	return ip*16 + vPortSlot(int(ap.Port()))
+}
+
+// slots 0..15 of an address id map to ports; slot 2 is the LARGEST port and slot 3 the smallest, the others 5000+slot
+func vSlotPort(slot int) int {
+	switch slot {
+	case 2:
+		return 65535
+	case 3:
+		return 1
+	}
+	return 5000 + slot
+}
+
+func vPortSlot(port int) int {
+	switch port {
+	case 65535:
+		return 2
+	case 1:
+		return 3
+	}
+	return port - 5000
 }
 
 func vUDPAddrID(u *net.UDPAddr) int { return vAddrID(u.AddrPort()) }
